@@ -32,29 +32,51 @@ const (
 type root struct {
 	kind rootKind
 	fn   *ssa.Function
-	idx  int       // parameter index (free variables follow the parameters)
-	deep bool      // parameter roots come in two: the objects the parameter value refers to directly
-	// (shallow) and everything reachable from them through at least one load (deep)
+	idx  int // parameter index (free variables follow the parameters)
+	lv   int // parameter roots come in nLv levels: the objects the parameter value refers to directly
+	// (0), what one load from those yields (1), and everything reachable through two or more loads (2)
 	site ssa.Value // allocation / call site
 	id   int
 }
 
-// slot numbers a parameter root: 2*idx for the shallow root, 2*idx+1 for the deep one.
-func (r *root) slot() int {
-	if r.deep {
-		return 2*r.idx + 1
+// nLv: number of depth levels a parameter blob is split into. Level 0 and 1 are exact distances,
+// the last level is "two or more loads" and closes over everything below (including links back up).
+const nLv = 3
+
+// slot numbers a parameter root: nLv*idx + level.
+func (r *root) slot() int { return nLv*r.idx + r.lv }
+
+func slotIdx(s int) int { return s / nLv }
+
+// paramSlots: all slots of parameter idx.
+func paramSlots(idx int) []int {
+	var out []int
+	for l := 0; l < nLv; l++ {
+		out = append(out, nLv*idx+l)
 	}
-	return 2 * r.idx
+	return out
 }
 
 func slotStr(s int) string {
 	if s < 0 {
 		return "globals"
 	}
-	if s%2 == 1 {
-		return fmt.Sprintf("P%d+", s/2)
+	switch s % nLv {
+	case 0:
+		return fmt.Sprintf("P%d", s/nLv)
+	case nLv - 1:
+		return fmt.Sprintf("P%d+", s/nLv)
 	}
-	return fmt.Sprintf("P%d", s/2)
+	return fmt.Sprintf("P%d.%d", s/nLv, s%nLv)
+}
+
+// next: the parameter roots one load below parameter root r. The last level is closed under loads
+// and may link back to every level (parent pointers).
+func (f *e1Fn) next(r *root) []*root {
+	if r.lv < nLv-1 {
+		return f.proots[nLv*r.idx+r.lv+1 : nLv*r.idx+r.lv+2]
+	}
+	return f.proots[nLv*r.idx : nLv*r.idx+nLv]
 }
 
 func (r *root) String() string {
@@ -161,18 +183,18 @@ type specKey struct {
 }
 
 type E1 struct {
-	c        *Ctx
-	specs    map[specKey]*e1Fn
-	all      []*e1Fn
-	fns      map[*ssa.Function]*e1Fn
-	order    []*ssa.Function
-	G, X     *root
-	nextID   int
-	immut    map[string]bool // named types (pkgpath.Name) whose values carry no roots
-	cached   *ssa.Function   // valueCache.cachedValue
-	Unres    map[string]int  // unresolved dynamic calls (callee description -> count)
-	External map[string]int  // calls treated with the external summary
-	typeMemo map[types.Type]bool
+	c         *Ctx
+	specs     map[specKey]*e1Fn
+	all       []*e1Fn
+	fns       map[*ssa.Function]*e1Fn
+	order     []*ssa.Function
+	G, X      *root
+	nextID    int
+	immut     map[string]bool // named types (pkgpath.Name) whose values carry no roots
+	cached    *ssa.Function   // valueCache.cachedValue
+	Unres     map[string]int  // unresolved dynamic calls (callee description -> count)
+	External  map[string]int  // calls treated with the external summary
+	typeMemo  map[types.Type]bool
 	Modelled  map[string]string // modelled facts used (printed in the evidence)
 	foreign   map[ssa.Value]bool
 	tupleVals map[tupleKey]ssa.Value
@@ -288,12 +310,17 @@ func (e *E1) newFn(fn *ssa.Function) *e1Fn {
 }
 
 func (e *E1) addParamRoots(f *e1Fn, i int, p ssa.Value) {
-	r := e.newRoot(rkParam, f.fn, i, p)
-	rd := e.newRoot(rkParam, f.fn, i, p)
-	rd.deep = true
-	f.proots = append(f.proots, r, rd)
+	var r0 *root
+	for l := 0; l < nLv; l++ {
+		r := e.newRoot(rkParam, f.fn, i, p)
+		r.lv = l
+		if l == 0 {
+			r0 = r
+		}
+		f.proots = append(f.proots, r)
+	}
 	if e.carries(p.Type()) {
-		f.pts[p] = rootSet{r: {}}
+		f.pts[p] = rootSet{r0: {}}
 	}
 }
 
@@ -429,16 +456,39 @@ func (f *e1Fn) loadFrom(rs rootSet) rootSet {
 	for r := range rs {
 		switch r.kind {
 		case rkParam:
-			// a load through a parameter blob yields its deep part; deep objects may point back to
-			// the shallow ones (parent links)
-			out.add(f.proots[2*r.idx+1])
-			if r.deep {
-				out.add(f.proots[2*r.idx])
+			// a load through a parameter blob yields the next level; the last level may point
+			// back to the upper ones (parent links)
+			for _, n := range f.next(r) {
+				out.add(n)
 			}
 		case rkGlobal, rkExt:
 			out.add(r)
 		}
 		out.addAll(f.content[r])
+	}
+	return out
+}
+
+// step: what exactly one load from objects of rs yields (edges created by `skip` not followed).
+func (f *e1Fn) step(rs rootSet, skip ssa.Instruction) rootSet {
+	out := rootSet{}
+	for r := range rs {
+		if r.kind == rkParam {
+			for _, n := range f.next(r) {
+				out.add(n)
+			}
+		}
+		if r.kind == rkGlobal || r.kind == rkExt {
+			out.add(r)
+		}
+		for c := range f.content[r] {
+			if skip != nil {
+				if w := f.why[[2]*root{r, c}]; w != nil && w.instr == skip {
+					continue
+				}
+			}
+			out.add(c)
+		}
 	}
 	return out
 }
@@ -456,9 +506,8 @@ func (f *e1Fn) below(rs rootSet, skip ssa.Instruction) rootSet {
 	expand := func(r *root) {
 		switch r.kind {
 		case rkParam:
-			push(f.proots[2*r.idx+1])
-			if r.deep {
-				push(f.proots[2*r.idx])
+			for _, n := range f.next(r) {
+				push(n)
 			}
 		}
 		for c := range f.content[r] {
@@ -494,13 +543,9 @@ func (f *e1Fn) reach(rs rootSet) rootSet {
 		r := work[len(work)-1]
 		work = work[:len(work)-1]
 		if r.kind == rkParam {
-			d := f.proots[2*r.idx+1]
-			if out.add(d) {
-				work = append(work, d)
-			}
-			if r.deep {
-				if sh := f.proots[2*r.idx]; out.add(sh) {
-					work = append(work, sh)
+			for _, d := range f.next(r) {
+				if out.add(d) {
+					work = append(work, d)
 				}
 			}
 		}
@@ -722,7 +767,6 @@ type tupleKey struct {
 	i int
 }
 
-
 type pseudoVal struct {
 	ssa.Value
 	name string
@@ -833,6 +877,8 @@ var stdlibMutators = map[string][]int{ // function -> indices of arguments writt
 	"encoding/json.Unmarshal": {1}, "gopkg.in/yaml.v2.Unmarshal": {1}, "gopkg.in/hjson/hjson-go.v3.Unmarshal": {1},
 	"(*flag.FlagSet).Var": {0}, "flag.Var": {},
 }
+
+var shallowMutators = map[string]bool{"sort.Strings": true, "sort.Ints": true, "sort.Slice": true, "sort.SliceStable": true}
 
 var reflectSetters = map[string]bool{"Set": true, "SetInt": true, "SetUint": true, "SetFloat": true, "SetBool": true, "SetString": true,
 	"SetMapIndex": true, "SetLen": true, "SetCap": true, "SetBytes": true, "SetComplex": true, "SetPointer": true, "SetZero": true, "Clear": true, "Grow": true, "SetIterKey": true, "SetIterValue": true}
@@ -1019,8 +1065,8 @@ func (e *E1) argRoots(f *e1Fn, ci ssa.CallInstruction, gf *e1Fn, mc *ssa.MakeClo
 	// free variable of the callee
 	k := i - np
 	if f.spec != nil && g == f.spec.h {
-		if 2*(f.base+k) < len(f.proots) {
-			return rootSet{f.proots[2*(f.base+k)]: {}}
+		if nLv*(f.base+k) < len(f.proots) {
+			return rootSet{f.proots[nLv*(f.base+k)]: {}}
 		}
 		return nil
 	}
@@ -1040,14 +1086,18 @@ func (e *E1) applySummary(f *e1Fn, ci ssa.CallInstruction, g *ssa.Function, gs *
 	ch := false
 	in, _ := ci.(ssa.Instruction)
 	slotRoots := func(sl int, skipOwn bool) rootSet {
-		sh := arg(sl / 2)
-		if sl%2 == 0 {
-			return sh
-		}
+		sh := arg(sl / nLv)
+		var skip ssa.Instruction
 		if skipOwn {
-			return f.below(sh, in)
+			skip = in
 		}
-		return f.below(sh, nil)
+		switch sl % nLv {
+		case 0:
+			return sh
+		case 1:
+			return f.step(sh, skip)
+		}
+		return f.below(f.step(sh, skip), skip)
 	}
 	for sl, m := range gs.mods {
 		modRoots(slotRoots(sl, true), "call "+e.c.FnName(g), m)
@@ -1189,6 +1239,17 @@ func (e *E1) applyLibrary(f *e1Fn, ci ssa.CallInstruction, g *ssa.Function, nres
 				recv.addAll(f.loadFrom(e.val(f, args[0])))
 			}
 			modRoots(recv, "reflect "+g.Name(), nil)
+		case isValueMethod && g.Name() == "MapKeys":
+			// a new slice of key copies (reflect: the keys are not addressable): reordering it does not
+			// touch the map
+			if v, ok := ci.(*ssa.Call); ok {
+				r := e.alloc(f, v)
+				if f.addContent(r, derived()) {
+					ch = true
+				}
+				setRes(0, rootSet{r: {}})
+				e.Modelled["reflect.Value.MapKeys"] = "returns a new slice; its elements are derived from the map"
+			}
 		case isValueMethod && g.Name() == "Call":
 			e.External["reflect.Value.Call"]++
 			rs := rootSet{e.X: {}}
@@ -1207,6 +1268,11 @@ func (e *E1) applyLibrary(f *e1Fn, ci ssa.CallInstruction, g *ssa.Function, nres
 		if idxs, ok := stdlibMutators[name]; ok {
 			for _, i := range idxs {
 				if i < len(args) {
+					if shallowMutators[name] {
+						// permutes the elements of the slice it is given, writes nothing below them
+						modRoots(e.val(f, args[i]), "library "+name, nil)
+						continue
+					}
 					modRoots(f.reach(e.val(f, args[i])), "library "+name, nil)
 				}
 			}
@@ -1347,13 +1413,16 @@ func (e *E1) Pts(v ssa.Value) rootSet {
 func (e *E1) DerivedFromParam(v ssa.Value, idx int) bool {
 	fn := v.Parent()
 	f := e.fns[fn]
-	if f == nil || 2*idx+1 >= len(f.proots) {
+	if f == nil || nLv*idx+nLv > len(f.proots) {
 		return false
 	}
 	rs := e.val(f, v)
-	_, ok1 := rs[f.proots[2*idx]]
-	_, ok2 := rs[f.proots[2*idx+1]]
-	return ok1 || ok2
+	for l := 0; l < nLv; l++ {
+		if _, ok := rs[f.proots[nLv*idx+l]]; ok {
+			return true
+		}
+	}
+	return false
 }
 
 // IsFresh: every root of v is an allocation of this function (or a callee's fresh result), and
